@@ -137,6 +137,65 @@ def cover(adj, elist, init, maxlen):
     return walks, uncovered
 
 
+def state_class(sjson, fine=False):
+    """class of a model state: per vector absent / moved / empty / partial / full (fine: size, capacity, budget and
+    whether it was default-constructed), per element its status"""
+    try:
+        vecs, els = json.loads(sjson)
+    except Exception:
+        return sjson
+    out = []
+    for v in vecs:
+        if v[0] != 'live':
+            out.append(v[0])
+        elif fine:
+            out.append('%d/%d/%s/%s' % (len(v[-1]), v[1], v[2], v[5]))
+        else:
+            n, cap = len(v[-1]), v[1]
+            out.append('empty' if n == 0 else ('full' if n >= cap else 'partial'))
+    for e in els:
+        out.append(e[0] if isinstance(e, list) else e.get('st', '?'))
+    return '|'.join(out)
+
+
+def pair_walks(adj, elist, init, walks, mode, states_by_id, maxlen):
+    """two-step coverage: for every (operation A into a state, operation B out of it) - per state CLASS (mode
+    'class') or per STATE (mode 'state') - one history that performs A directly followed by B (and an Emplace probe).
+    A defect that needs two specific operations in a row is exercised even when the transition cover happened to
+    place something else between them."""
+    prev, path = bfs_paths(adj, init, elist)
+
+    def key(e1, e2):
+        t = elist[e1][2]
+        c = states_by_id[t] if mode == 'state' else state_class(states_by_id[t], mode == 'shape')
+        return (elist[e1][1]['n'], elist[e2][1]['n'], c)
+    covered = set()
+    for w in walks:
+        for a, b in zip(w, w[1:]):
+            covered.add(key(a, b))
+    extra = []
+    order = sorted(prev, key=lambda s: len(path(s)))
+    for s in order:
+        for e1, t in adj[s]:
+            if elist[e1][1].get('fault', 0) > 0 or elist[e1][1]['n'] not in MUTATORS and elist[e1][1]['n'] != 'Emplace':
+                continue
+            for e2, t2 in adj[t]:
+                if elist[e2][1].get('fault', 0) > 0:
+                    continue
+                k = key(e1, e2)
+                if k in covered:
+                    continue
+                covered.add(k)
+                w = path(s) + [e1, e2]
+                if len(w) > maxlen + 2:
+                    continue
+                pr = [eid for eid, _ in adj[t2] if elist[eid][1]['n'] == 'Emplace' and elist[eid][1].get('fault', 0) == 0]
+                if pr and elist[e2][1]['n'] in MUTATORS:
+                    w.append(pr[len(extra) % len(pr)])
+                extra.append(w)
+    return extra
+
+
 def all_paths(adj, init, depth):
     walks = []
 
@@ -200,8 +259,18 @@ def main():
     ids, adj, elist = build(edges)
     # the initial state is the only one that is never a target of a non-self edge and is the source of the first edge
     init = elist[0][0]
+    pairs = 'none'
+    for i, o in enumerate(opts):
+        if o == '--pairs':
+            pairs = opts[i + 1]
+    npair = 0
     if mode == 'cover':
         walks, uncovered = cover(adj, elist, init, maxlen)
+        if pairs != 'none':
+            by_id = {v: k for k, v in ids.items()}
+            extra = pair_walks(adj, elist, init, walks, pairs, by_id, maxlen)
+            npair = len(extra)
+            walks += extra
     else:
         walks = all_paths(adj, init, depth)
         uncovered = set(range(len(elist))) - {e for w in walks for e in w}
@@ -214,7 +283,7 @@ def main():
     for s, a, t in elist:
         model_counts[a['n']] += 1
     meta = {'mode': mode, 'states': len(ids), 'transitions': len(elist), 'uncovered': len(uncovered),
-            'walks': len(walks), 'ops': sum(len(w) for w in walks), 'per_action_model': dict(model_counts),
+            'walks': len(walks), 'pair_walks': npair, 'ops': sum(len(w) for w in walks), 'per_action_model': dict(model_counts),
             'per_action_plan': dict(counts),
             'sample': [[elist[e][1] for e in w] for w in walks[:1] + walks[len(walks) // 2:len(walks) // 2 + 1]]}
     json.dump(meta, open(out + '.json', 'w'))
